@@ -577,8 +577,10 @@ def coq_obs(tree):
 
 
 # ---------------------------------------------------------------- jobs (run in worker processes)
-def make_case(seed, n_points, length, grid=4, want_coq=False, max_samples=2):
-    """Deterministic random case: data values, start spec, history (generated against the real tree)."""
+def make_case(seed, n_points, length, grid=4, want_coq=False, max_samples=2, offset=0.0):
+    """Deterministic random case: data values, start spec, history (generated against the real tree).
+    offset: a constant added to every log-likelihood entry of every data point (large-magnitude stream: the vectors
+    keep their narrow dynamic range but |log_r| grows to thousands, as on data sets with thousands of mutations)."""
     import random
 
     from .trees import make_data, rational_values
@@ -587,6 +589,20 @@ def make_case(seed, n_points, length, grid=4, want_coq=False, max_samples=2):
     ns = rng.randint(1, max_samples)
     vals = rational_values(rng, n_points, ns, grid)
     data = make_data(vals, outlier_prob=0.1)
+    if offset:
+        from phyclone.data.base import DataPoint
+
+        import numpy as np
+
+        shifted = []
+        for d in data:
+            if rng.random() < 0.4:
+                # a weakly informative data point: log-likelihood within a few hundredths of zero in every cell
+                v = np.log(np.array([[rng.randint(61, 64) / 64.0 for _ in range(grid)] for _ in range(ns)]))
+            else:
+                v = d.value + offset
+            shifted.append(DataPoint(d.idx, v, outlier_prob=d.outlier_prob, outlier_prob_not=d.outlier_prob_not))
+        data = shifted
     spec, hist = gen_history(rng, data, rng.randint(0, max(0, n_points - 3)), length)
     return {"seed": seed, "ns": ns, "grid": grid, "vals": vals, "data": data, "spec": spec, "hist": hist}
 
@@ -646,13 +662,14 @@ def bad_edit(seed, tree, data):
 
 def history_job(args):
     """args = (seed, n_points, length, want_coq).  Returns a JSON-able summary."""
-    seed, n_points, length, want_coq = args
-    case = make_case(seed, n_points, length)
+    seed, n_points, length, want_coq = args[:4]
+    offset = args[4] if len(args) > 4 else 0.0
+    case = make_case(seed, n_points, length, offset=offset)
     hist = case["hist"]
     ops = {}
     for e in hist:
         ops[e[0]] = ops.get(e[0], 0) + 1
-    out = {"seed": seed, "n_points": n_points, "length": len(hist), "ops": ops, "ns": case["ns"], "failure": None,
+    out = {"seed": seed, "n_points": n_points, "length": len(hist), "ops": ops, "ns": case["ns"], "failure": None, "offset": offset,
            "spec": case["spec"], "final": None, "coq": None}
     tree, f = replay(case["spec"], hist, case["data"])
     if f is not None:
@@ -765,8 +782,9 @@ def roundtrip_job(args):
     node_last_added_to, then continue the SAME random suffix on both copies and compare after every edit."""
     import random
 
-    seed, n_points, length, want_coq = args
-    case = make_case(seed, n_points, length)
+    seed, n_points, length, want_coq = args[:4]
+    offset = args[4] if len(args) > 4 else 0.0
+    case = make_case(seed, n_points, length, offset=offset)
     data, spec, hist = case["data"], case["spec"], case["hist"]
     rng = random.Random(seed + 1)
     out = {"seed": seed, "n_points": n_points, "asked_length": length, "length": len(hist), "roundtrips": 0, "holes": 0, "outlier_only": 0, "suffix_edits": 0, "failure": None, "coq": [], "modes": {}}
